@@ -34,6 +34,26 @@ CHECKS['C02'] = (
     BASE_NOTE + 'Faithful hypothesis (float equality = decimal equality on the input numbers; measured per run). sort_basis float keys (<r^2>) are '
     'taken from the implementation and abstracted to ranks.', '6/C02')
 
+CHECKS['C07'] = (
+    'Lean 4 theorems (uncontract_segmented = one unit function per primitive; remove_free column filter keeps exactly the >=2-primitive functions; '
+    'the optimize_general zeroing step preserves Submodule.span over Q and cannot add non-zeros) + differential execution of the Lean model against '
+    'manip.py and the get_basis pipeline + exact-rational span check of the implementation output',
+    'Proof (on the model): uncontract_segmented_spec / shape, removeFree_spec (single-momentum shells), span_zeroRow and zeroRow_support for one '
+    'zeroing step of optimize_general (Mathlib Submodule.span over Q), literals and call order regenerated from manip.py/api.py. Tie: exact shell-list '
+    'equality model = implementation per element, directly and through 12 flag combinations. Partial: the induction of span_zeroRow over all free '
+    'primitives of a shell is not mechanised; span equality and the non-zero count of the real output are decided by exact Gaussian elimination in the harness.',
+    BASE_NOTE + 'Faithful hypothesis; Fraction arithmetic of CPython for the span oracle.', '6/C07')
+CHECKS['C08'] = (
+    'Lean 4 theorems (prune_shell output has pairwise distinct exponent values and no dead primitive, prune_basis output has no duplicate shell, '
+    'every option block of get_basis requests the final prune — over the block list regenerated from api.py) + the Lean model of the validator rules '
+    'run on every get_basis result next to validate_data',
+    'Proof (on the model): the closing prune_basis establishes distinct exponents / no unused primitive / no duplicate shell for any input, and '
+    'get_basis always reaches it when a contraction option is set (decide over the regenerated block list). The remaining rules (type tags, duplicate '
+    'columns, function_types) are checked on every explored result by the Lean validator model (correspondence-checked against validate_data) and by '
+    'the library validator: 2^6 option combinations x augmentation on store samples (exhaustive over the store in the thorough tier) and generated dictionaries. '
+    'Partial: preservation lemmas per operation for the rules prune does not repair are not proved.',
+    BASE_NOTE + 'jsonschema package for the generic schema part.', '6/C08')
+
 NOT_YET = {}
 
 
